@@ -47,7 +47,8 @@ Definition tok_at (off : N) : xres :=
 (* ------------------------------------------------------------------ decode_group *)
 (* dg_elem: for (pos; s_offset < fsize && (result = extract_element(...));) on element grp
    dg_loop: for (ok = true; ok && s_offset < fsize;) appending elements to els
-   decode_group m f off: find_add_group, then dg_loop; returns the updated holder and offset *)
+   decode_group m f off: find_add_group, then dg_loop; returns the updated holder and offset.
+   Since /repo a0d41df no result of these functions is Diverge any more. *)
 Fixpoint dg_elem (fuel : nat) (grp : mbase) (pos off : N) {struct fuel}
   : res (mbase * N * N * stop) :=
   match fuel with O => Fuel | S fuel' =>
@@ -91,6 +92,87 @@ with dg_loop (fuel : nat) (gm : gmeta) (els : list mbase) (off : N) {struct fuel
     match dg_elem fuel' (create_group gm false) 0 off with
     | Exc e => Exc e | OOB s => OOB s | Diverge => Diverge | Fuel => Fuel
     | Ok (grp, pos, off', why) =>
+      (* since /repo a0d41df: if (grp->_fields.empty()) break;  -- an element that came out empty
+         (extract_element failed on its first token) ends the element loop, it is not appended *)
+      match mb_fields grp with
+      | [] => Ok (els, off')
+      | _ :: _ =>
+        match find_missing (mb_fp grp) with
+        | Some f => Exc (EMissingMandatory f)
+        | None =>
+          let els' := els ++ [grp] in
+          match why with
+          | SForeign => Ok (els', off')
+          | SEnd => Ok (els', off')
+          | SDup => dg_loop fuel' gm els' off'
+          | SStall =>
+              (* ok is still true and s_offset < fsize: the next element is created, its inner loop
+                 stops at once (same offset, same failing token), it is empty: break *)
+              Ok (els', off')
+          end
+        end
+      end
+    end
+  else Ok (els, off)
+  end
+with decode_group (fuel : nat) (m : mbase) (f : N) (off : N) {struct fuel} : res (mbase * N) :=
+  match fuel with O => Fuel | S fuel' =>
+  match find_add_group m f with
+  | Exc e => Exc e | OOB s => OOB s | Diverge => Diverge | Fuel => Fuel
+  | Ok (m1, gm) =>
+    let els0 := match map_find f (mb_groups m1) with Some l => l | None => [] end in
+    match dg_loop fuel' gm els0 off with
+    | Ok (els, off') => Ok (with_groups m1 (map_set f els (mb_groups m1)), off')
+    | Exc e => Exc e | OOB s => OOB s | Diverge => Diverge | Fuel => Fuel
+    end
+  end end.
+
+(* ------------------------------------------------------------------ decode_group, ORIGINAL code
+   (before /repo a0d41df), kept for refutation witnesses (not used by dec_loop): an element that
+   comes out empty is appended and the element loop never ends (Diverge). *)
+Fixpoint dg_elem_orig (fuel : nat) (grp : mbase) (pos off : N) {struct fuel}
+  : res (mbase * N * N * stop) :=
+  match fuel with O => Fuel | S fuel' =>
+  if off <? fsize then
+    match tok_at off with
+    | XOOB s => OOB s
+    | XFail _ _ => Ok (grp, pos, off, SStall)
+    | XOk tag val result =>
+      let tv32 := fast_atoi_u32 tag in
+      let tv := tv32 mod 65536 in
+      match find_trait (mb_fp grp) tv with
+      | None =>
+          (* get(tv, itr, present) = false; pos == 0 && getPos(...) = 0 != 1 -> throw;
+             otherwise !has(tv) -> ok = false; break *)
+          if pos =? 0 then Exc (EMissingGroupField tv32) else Ok (grp, pos, off, SForeign)
+      | Some tr =>
+          if t_present tr then Ok (grp, pos, off, SDup)
+          else if (pos =? 0) && negb (getPos tr =? 1) then Exc (EMissingGroupField tv32)
+          else match find_be (c_fields c) tv with
+          | None => Ok (grp, pos, off, SForeign)
+          | Some _ =>
+            let off1 := off + result in
+            let pos1 := pos + 1 in
+            let v := cstr val in
+            let g1 := mark_present (add_field_decoder grp tv pos1 v) tv in
+            if t_group tr && has_group_count_c c tv v then
+              match decode_group_orig fuel' g1 tv off1 with
+              | Ok (g2, off2) => dg_elem_orig fuel' g2 pos1 off2
+              | Exc e => Exc e | OOB s => OOB s | Diverge => Diverge | Fuel => Fuel
+              end
+            else dg_elem_orig fuel' g1 pos1 off1
+          end
+      end
+    end
+  else Ok (grp, pos, off, SEnd)
+  end
+with dg_loop_orig (fuel : nat) (gm : gmeta) (els : list mbase) (off : N) {struct fuel}
+  : res (list mbase * N) :=
+  match fuel with O => Fuel | S fuel' =>
+  if off <? fsize then
+    match dg_elem_orig fuel' (create_group gm false) 0 off with
+    | Exc e => Exc e | OOB s => OOB s | Diverge => Diverge | Fuel => Fuel
+    | Ok (grp, pos, off', why) =>
       match find_missing (mb_fp grp) with
       | Some f => Exc (EMissingMandatory f)
       | None =>
@@ -98,7 +180,7 @@ with dg_loop (fuel : nat) (gm : gmeta) (els : list mbase) (off : N) {struct fuel
         match why with
         | SForeign => Ok (els', off')
         | SEnd => Ok (els', off')
-        | SDup => dg_loop fuel' gm els' off'
+        | SDup => dg_loop_orig fuel' gm els' off'
         | SStall =>
             (* ok is still true and s_offset < fsize: the next element is created, its inner
                loop stops at once (same offset, same failing token), it is empty; if the group
@@ -113,13 +195,13 @@ with dg_loop (fuel : nat) (gm : gmeta) (els : list mbase) (off : N) {struct fuel
     end
   else Ok (els, off)
   end
-with decode_group (fuel : nat) (m : mbase) (f : N) (off : N) {struct fuel} : res (mbase * N) :=
+with decode_group_orig (fuel : nat) (m : mbase) (f : N) (off : N) {struct fuel} : res (mbase * N) :=
   match fuel with O => Fuel | S fuel' =>
   match find_add_group m f with
   | Exc e => Exc e | OOB s => OOB s | Diverge => Diverge | Fuel => Fuel
   | Ok (m1, gm) =>
     let els0 := match map_find f (mb_groups m1) with Some l => l | None => [] end in
-    match dg_loop fuel' gm els0 off with
+    match dg_loop_orig fuel' gm els0 off with
     | Ok (els, off') => Ok (with_groups m1 (map_set f els (mb_groups m1)), off')
     | Exc e => Exc e | OOB s => OOB s | Diverge => Diverge | Fuel => Fuel
     end
